@@ -4,7 +4,7 @@ package martian
 
 // C11 (sequential path facts only): graceful shutdown finishes in-flight work, admits nothing new, leaks nothing.
 //
-//vf:assume C11: shutdown begins at one of: before the connection is served, while the first request is at the origin, after the first response while the client's second request is in flight, never; one connection carrying two requests; a second connection accepted after shutdown began
+//vf:assume C11: shutdown begins at one of: before the connection is served, while the first request is at the origin, after the first response while the client's second request is in flight, never; one connection carrying two requests (the second a GET or a CONNECT); a second connection accepted after shutdown began
 //vf:assume C11: every timing/interleaving clause of the statement (Shutdown racing accept, registration, reads on real goroutines) is outside: one schedule is executed; Shutdown's polling timer never fires, so Shutdown is only called where it returns without waiting (drained, or context already done)
 
 import (
@@ -36,10 +36,19 @@ func (rt *vfRT) RoundTrip(req *http.Request) (*http.Response, error) {
 //vf:harness property=C11 nopanic reach=shutdown-never,shutdown-before-serve,shutdown-in-flight,shutdown-between-requests steps=6000000
 func vfH_C11_paths() {
 	rt := &vfRT{}
-	p := &Proxy{RoundTripper: rt}
+	p := &Proxy{RoundTripper: rt, WithoutWarning: true}
 	p.init()
 	first := "GET http://example.com/1 HTTP/1.1\r\nHost: example.com\r\n\r\n"
+	secondConnect := vfrt.Choice("second-request-is-connect", 2) == 1
 	wire := first + "GET http://example.com/2 HTTP/1.1\r\nHost: example.com\r\n\r\n"
+	if secondConnect {
+		wire = first + "CONNECT example.com:443 HTTP/1.1\r\nHost: example.com:443\r\n\r\n"
+	}
+	dials := 0
+	p.DialContext = func(context.Context, string, string) (net.Conn, error) {
+		dials++
+		return nil, io.ErrUnexpectedEOF
+	}
 	conn := NewVfConn([]byte(wire))
 	conn.Chunk = len(first) // one read delivers exactly the first request: the second request needs a further read
 	when := vfrt.Choice("shutdown-begins", 4)
@@ -73,12 +82,16 @@ func vfH_C11_paths() {
 	br := bufio.NewReader(bytes.NewReader(conn.Out.Bytes()))
 	switch when {
 	case 0:
-		vfrt.Assert(rt.calls == 2, "paths/both-requests-served-without-shutdown")
+		if secondConnect {
+			vfrt.Assert(rt.calls == 1 && dials == 1, "paths/both-requests-served-without-shutdown")
+		} else {
+			vfrt.Assert(rt.calls == 2, "paths/both-requests-served-without-shutdown")
+		}
 	case 1:
-		vfrt.Assert(rt.calls == 0 && conn.Out.Len() == 0, "paths/connection-accepted-after-shutdown-began-is-closed-without-service")
+		vfrt.Assert(rt.calls == 0 && dials == 0 && conn.Out.Len() == 0, "paths/connection-accepted-after-shutdown-began-is-closed-without-service")
 	case 2:
 		// the exchange whose request had reached its origin completes, then the proxy closes that connection
-		vfrt.Assert(rt.calls == 1, "paths/nothing-new-forwarded-after-shutdown-began")
+		vfrt.Assert(rt.calls == 1 && dials == 0, "paths/nothing-new-forwarded-after-shutdown-began")
 		res, err := http.ReadResponse(br, &http.Request{Method: "GET"})
 		vfrt.Assert(err == nil && res.StatusCode == 200, "paths/in-flight-response-delivered")
 		if err == nil {
@@ -87,7 +100,7 @@ func vfH_C11_paths() {
 		}
 	case 3:
 		// a request the client first sends after shutdown has begun is never forwarded
-		vfrt.Assert(rt.calls == 1 && len(rt.paths) == 1 && rt.paths[0] == "/1", "paths/request-arriving-after-shutdown-began-is-not-forwarded")
+		vfrt.Assert(rt.calls == 1 && len(rt.paths) == 1 && rt.paths[0] == "/1" && dials == 0, "paths/request-arriving-after-shutdown-began-is-not-forwarded")
 	}
 
 	// Shutdown reports success only when everything is drained; Close closes every registered socket
